@@ -247,7 +247,7 @@ func workerMain(args []string) {
 			buf = buf[:runtime.Stack(buf, true)]
 			st := string(buf)
 			res = CaseResult{Case: i, FP: fmt.Sprintf("stuck-%d", i), Verdict: "inconclusive", Note: "case exceeded its deadline"}
-			if strings.Contains(st, "sync.(*RWMutex)") && strings.Contains(st, "xujiajun/nutsdb") {
+			if lockDeadlocked(st) {
 				res.Verdict = "violated"
 				res.Viol = []Violation{{Sig: ck.ID + "/hang/lock-never-released", Class: "hang",
 					Detail: "the case blocked for ever on the database lock (a transaction ended without releasing it, or two lock acquisitions deadlocked):\n" + firstN(st, 3000)}}
@@ -264,6 +264,38 @@ func workerMain(args []string) {
 		fmt.Fprintf(f, "R %s\n", b)
 	}
 	fmt.Fprintf(f, "DONE\n")
+}
+
+// lockDeadlocked is the structural judgement on the goroutine dump of a case that exceeded its deadline:
+// true only if at least one goroutine with a nutsdb frame is parked on a mutex and NO goroutine with a
+// nutsdb frame is in any other state.  A goroutine that is running, runnable, in a syscall, sleeping in a
+// yield hook ... inside the library means the case is slow (it still holds the lock legitimately), which
+// is inconclusive and never a violation: the deadline is wall-clock and must not decide a verdict.
+func lockDeadlocked(dump string) bool {
+	parked, other := 0, 0
+	for _, blk := range strings.Split(dump, "\n\n") {
+		if !strings.HasPrefix(blk, "goroutine ") || !strings.Contains(blk, "xujiajun/nutsdb.") {
+			continue
+		}
+		hdr := blk
+		if k := strings.Index(blk, "\n"); k >= 0 {
+			hdr = blk[:k]
+		}
+		state := ""
+		if a, b := strings.Index(hdr, "["), strings.Index(hdr, "]"); a >= 0 && b > a {
+			state = hdr[a+1 : b]
+		}
+		if k := strings.Index(state, ","); k >= 0 {
+			state = state[:k]
+		}
+		switch state {
+		case "sync.RWMutex.Lock", "sync.RWMutex.RLock", "sync.Mutex.Lock", "semacquire":
+			parked++
+		default:
+			other++
+		}
+	}
+	return parked > 0 && other == 0
 }
 
 // ---------------------------------------------------------------- driver
